@@ -4,21 +4,22 @@ From STS Require Import Model.Ranges Model.Queue Model.LogM Model.Stage Proofs.S
 Import ListNotations.
 Open Scope Z_scope.
 
-(* cleanStrays (after fix d299eeb): never touches complete (.full) or validated
-   (.wait) bodies, delivered files, the log or the cache; only removes partials
-   and companions; and removes a partial only if it is older than the cleaning
-   age AND (the cache knows the file beyond "received" with the companion's hash
-   - or there is no companion) or the log holds a record of exactly that name
-   and the companion's hash *)
+(* cleanStrays (after fixes d299eeb and "a failed version is not a delivered one"):
+   never touches complete (.full) or validated (.wait) bodies, delivered files, the
+   log or the cache; only removes partials and companions; and removes a partial OR
+   a companion only if the partial is older than the cleaning age AND (the cache knows
+   the name as validated (held), put away or logged - NOT failed - with the companion's
+   hash, or there is no companion) or the log holds a record of exactly that name and
+   the companion's hash. A companion never goes without its partial. *)
 Theorem C20_clean_stray_safe : forall s n,
   fulls (clean_stray s n) = fulls s /\ waits (clean_stray s n) = waits s /\
   finals (clean_stray s n) = finals s /\ rlog (clean_stray s n) = rlog s /\
   heap (clean_stray s n) = heap s /\ cache (clean_stray s n) = cache s /\
   (forall k v, In (k, v) (parts (clean_stray s n)) -> In (k, v) (parts s)) /\
   (forall k v, In (k, v) (cmps (clean_stray s n)) -> In (k, v) (cmps s)) /\
-  (parts (clean_stray s n) <> parts s ->
+  (parts (clean_stray s n) <> parts s \/ cmps (clean_stray s n) <> cmps s ->
      exists sf, alookup n (parts s) = Some sf /\ sf_old sf = true /\
-       ((0 < cache_state s n /\
+       ((ST_RECEIVED < cache_state s n /\ cache_state s n <> ST_FAILED /\
          match alookup n (cmps s) with None => True | Some c => c_hash c = cache_hash s n end) \/
         log_has s n (match alookup n (cmps s) with Some c => c_hash c | None => [] end) = true)).
 Proof. exact clean_stray_safe. Qed.
